@@ -81,6 +81,8 @@ func retStr(r int64) string {
 		return "EOF"
 	case r == 2:
 		return "deadline"
+	case r == 900:
+		return "PANIC"
 	}
 	return fmt.Sprintf("e%d", r)
 }
@@ -114,9 +116,34 @@ func errCode(err error) int64 {
 
 var stamp atomic.Int64
 
+var panicMu sync.Mutex
+var panicMsgs []string
+
+func notePanic(m string) {
+	panicMu.Lock()
+	panicMsgs = append(panicMsgs, m)
+	panicMu.Unlock()
+}
+func lastPanic() string {
+	panicMu.Lock()
+	defer panicMu.Unlock()
+	if len(panicMsgs) == 0 {
+		return ""
+	}
+	return panicMsgs[len(panicMsgs)-1]
+}
+
+// a panic inside the code under test is an observation: the call "returns" code 900
 func doOp(d *common.DeadlineChan[uint64], o *qop) {
 	atomic.StoreInt64(&o.c, stamp.Add(1))
 	var res int64
+	defer func() {
+		if e := recover(); e != nil {
+			notePanic(fmt.Sprint(e))
+			atomic.StoreInt64(&o.ret, 900)
+			atomic.StoreInt64(&o.r, stamp.Add(1))
+		}
+	}()
 	switch o.k {
 	case kRecv:
 		v, err := d.Recv()
@@ -268,7 +295,7 @@ func cleanup(d *common.DeadlineChan[uint64], wg *sync.WaitGroup) (leftover []uin
 	go func() { wg.Wait(); close(done) }()
 	closed := make(chan struct{})
 	go func() { d.Close(); close(closed) }()
-	deadline := time.After(3 * time.Second)
+	deadline := time.After(700 * time.Millisecond)
 	for {
 		select {
 		case v := <-d.C:
@@ -317,6 +344,9 @@ func judge(p program, leftoverBeforeCleanup []uint64, leaked bool, goBefore, goA
 		for j, o := range t {
 			if o.c == 0 {
 				continue // never issued: an earlier call of this thread is still blocked
+			}
+			if o.ret == 900 {
+				return verdict{false, "C17:panic", fmt.Sprintf("T%d %s panicked: %s", i, o, lastPanic())}
 			}
 			if o.ret < 0 {
 				blockedDesc = append(blockedDesc, fmt.Sprintf("T%d %s", i, o))
